@@ -1,15 +1,6 @@
 (** Correspondence + monitor entry points for node accounting (C14; reused by C01/C02). *)
-From KaiV Require Export Run.Prelude Model.Res Model.Status Model.AMap Model.Node Model.NodeSpec.
+From KaiV Require Export Run.Prelude Model.Res Model.Status Model.AMap Model.Node Model.NodeSpec Run.NodeObs.
 Open Scope Z_scope.
-
-(** What the harness reads off a real NodeInfo after each operation. *)
-Record obs := mkObs {
-  o_idle : res; o_used : res; o_rel : res;
-  o_idle_v : res; o_used_v : res; o_rel_v : res;       (* vector representation *)
-  o_pods : amap (status * list positive);
-  o_gused : amap Z; o_galloc : amap Z; o_grel : amap Z;
-  o_gmark : list positive;
-}.
 
 Inductive nop :=
 | OAdd (t : task)
@@ -36,25 +27,6 @@ Definition apply_op (n : node) (o : nop) : result node :=
   | OUpdate t => update_task n t
   | OConsolidate t => consolidate_to_different_gpu n t
   end.
-
-Definition list_eqb {A} (e : A -> A -> bool) := fix go (a b : list A) : bool :=
-  match a, b with
-  | [], [] => true
-  | x :: r, y :: s => e x y && go r s
-  | _, _ => false
-  end.
-
-Definition zmap_ext_eqb (a b : amap Z) : bool :=
-  forallb (fun k => zget k a =? zget k b) (akeys a ++ akeys b).
-Definition zmap_keys_eqb (a b : amap Z) : bool := list_eqb Pos.eqb (akeys a) (akeys b).
-
-Definition obs_matches (n : node) (o : obs) : bool :=
-  req (n_idle n) (o_idle o) && req (n_used n) (o_used o) && req (n_rel n) (o_rel o)
-  && amap_eqb2 (fun t so => status_eqb (t_status t) (fst so) && list_eqb Pos.eqb (t_groups t) (snd so))
-              (n_pods n) (o_pods o)
-  && amap_eqb Z.eqb (g_used n) (o_gused o) && amap_eqb Z.eqb (g_alloc n) (o_galloc o)
-  && amap_eqb Z.eqb (g_rel n) (o_grel o)
-  && list_eqb Pos.eqb (akeys (g_mark n)) (o_gmark o).
 
 Definition probe_matches (n : node) (p : probe) : bool :=
   Bool.eqb (is_task_allocatable n (pr_task p)) (pr_alloc p)
